@@ -402,6 +402,12 @@ class World:
         self.emit({"op": "rec_eq", "a": a, "b": b}, {"eq": bool(res)})
         return res
 
+    def rec_hash(self, a, b):
+        """do the two records hash alike? (compared one way only: see diff_outputs)"""
+        res = hash(self.recs[a]) == hash(self.recs[b])
+        self.emit({"op": "rec_hash", "a": a, "b": b}, {"heq": bool(res)})
+        return res
+
     def enc_json(self, c, **kwargs):
         """writer channel: the tree the implementation's PROV-JSON writer emits (after json.loads)"""
         from . import jsontree
@@ -693,6 +699,14 @@ def diff_outputs(ops, impl_outs, model_outs):
         if "fatal" in b:
             return i, "model-fatal: %s" % b["fatal"]
         proto.normalize_model_obs(b)
+        if ops[i]["op"] == "rec_hash":
+            # the model says whether the arguments of __hash__ are the same for hash(); then the hashes must be equal.
+            # Equal hashes of different arguments are collisions (hash(-1) == hash(-2), ...): counted, not reported.
+            if b.get("heq") and not a.get("heq"):
+                return i, "the model finds the same hash arguments, the implementation's hashes differ"
+            if a.get("heq") and not b.get("heq"):
+                DIVERGENCES["hash-collision"] = DIVERGENCES.get("hash-collision", 0) + 1
+            continue
         if ops[i]["op"] == "to_dot":
             from . import dotjson
             if a.get("graph") is None:
